@@ -490,19 +490,23 @@ def run_check(pid, tier, seed, keep=False):
         f = [x for x in known if x["id"] == fid][0]
         print("KNOWN-FINDING: property=%s %s (%s; %d occurrence(s) in this run)" % (pid, f["what"], fid, len(vs)))
     rc = 0
-    seen_kinds = set()
+    seen_kinds = {}
+    shutil.rmtree(os.path.join(VERIF, "replays", pid), ignore_errors=True)
+    run_cache = {}
     for v in new:
-        if v["k"] in seen_kinds and len(seen_kinds) >= 1 and rc == 1 and len([1 for _ in seen_kinds]) > 5:
-            continue
-        runs = split_runs(v["_trace"])
+        rc = 1
+        n = seen_kinds.get(v["k"], 0)
+        seen_kinds[v["k"]] = n + 1
+        if n >= 3:
+            continue        # three replay files per violation kind are enough; the count is in the evidence
+        if v["_trace"] not in run_cache:
+            run_cache[v["_trace"]] = split_runs(v["_trace"])
         script = scripts_by_id.get(v["run"], {})
         vv = {k: x for k, x in v.items() if k != "_trace"}
-        path = write_replay(pid, tier, seed, vv, script, runs.get(v["run"], []))
-        if v["k"] not in seen_kinds:
+        path = write_replay(pid, tier, seed, vv, script, run_cache[v["_trace"]].get(v["run"], []))
+        if n == 0:
             print("VIOLATION property=%s replay=%s" % (pid, path))
             print("  kind=%s run=%d seq=%d detail=%s" % (v["k"], v["run"], v["seq"], json.dumps(v["d"])[:600]))
-        seen_kinds.add(v["k"])
-        rc = 1
     if drift:
         print("DRIFT: %d of %d spec-driven runs no longer match RaftLogStore step for step (first: run %s seq %s: %s)" % (
             sruns - conform, sruns, drift[0]["run"], drift[0]["seq"], drift[0]["why"]))
